@@ -4,6 +4,8 @@
 // function is an empty inlinable stub and Enabled is a false constant, so call sites compile to nothing.
 package vhook
 
+import "time"
+
 // Enabled tells whether the hooks are compiled in
 const Enabled = false
 
@@ -15,3 +17,6 @@ func G(string) {}
 
 // K passes a kill point (no-op without build tag "verif")
 func K(string) {}
+
+// NowNano reads the wall clock in nanoseconds (with build tag "verif" a harness may substitute the clock)
+func NowNano() int64 { return time.Now().UnixNano() }
